@@ -1,0 +1,22 @@
+//go:build verif
+
+package hydra
+
+import "github.com/hydraide/hydraide/app/core/hydra/swamp"
+
+// VigilCountsC26 returns the active-vigil counter of every swamp that is open in the hydra.
+// Verification only.
+func VigilCountsC26(h Hydra) map[string]int64 {
+	out := map[string]int64{}
+	hy, ok := h.(*hydra)
+	if !ok {
+		return out
+	}
+	hy.swamps.Range(func(key, value interface{}) bool {
+		if s, ok := value.(swamp.Swamp); ok {
+			out[key.(string)] = swamp.VigilCountC26(s)
+		}
+		return true
+	})
+	return out
+}
